@@ -152,6 +152,8 @@ void fdSnapshot(const std::string &label)
         if (p == "/dev/null" && fd > 2) { ++orphans; real += std::to_string(fd) + "=orphan-placeholder "; continue; }
         if (p.compare(0, g_scn.rundir.size(), g_scn.rundir) == 0) p = p.substr(g_scn.rundir.size());
         { std::string tag = g_scn.rundir; for (auto &c : tag) if (c == '/') c = '_'; size_t i = p.find("-" + tag); if (i != std::string::npos) p.erase(i); }
+        { std::string tag = g_scn.rundir; while (!tag.empty() && tag[0] == '/') tag.erase(0, 1); for (auto &c : tag) if (c == '/') c = '.';   // rock names its rebuild segment after the cache_dir path
+          size_t i = p.find("-" + tag); if (i != std::string::npos) p.replace(i + 1, tag.size(), "@RUN@"); }
         ++nreal; real += std::to_string(fd) + "=" + p + " ";
     }
     hist("FDSNAP\t%s\treal\t%d\t%d\t%d\t%s", label.c_str(), nreal, nplace, orphans, real.substr(0, 900).c_str());
